@@ -76,6 +76,9 @@ pub fn tuple_pool() -> Vec<RV> {
         Tuple(vec![Float(f64::NAN)]),
         Tuple(vec![Empty]),
         Tuple(vec![Str("äb".into()), Int(1), Int(2)]),
+        // a matching scalar followed by a forbidden element (contains_any must still reject it)
+        Tuple(vec![Int(1), Tuple(vec![Int(1), Int(2)])]),
+        Tuple(vec![Int(1), Int(2), Int(3)]),
     ]
 }
 
